@@ -71,11 +71,11 @@ Proof. exact prefix15_abc. Qed.
 Print Assumptions C06_prefix_of_fips_vector.
 
 (* the constants of the source (gen/Tables.v, regenerated on every run): 0xFFFFFFFFFFFFFFF, 15 hex digits, /100000.0 *)
-From LD Require Import TablesProof.
+From LD Require Import TablesBucket.
 From LDGen Require Import Tables.
 From Coq Require Import String.
 Theorem C06_constants_match_source :
   long_scale_src = long_scale /\ hash_prefix_len_src = hash_prefix_len /\
-  weight_divisors = [("evaluator.go", "100000.0"); ("evaluator_segment.go", "100000.0")]%string.
+  weight_divisors = [("evaluator.go"%string, 100000%Z); ("evaluator_segment.go"%string, 100000%Z)].
 Proof. exact bucketing_constants_match_source. Qed.
 Print Assumptions C06_constants_match_source.
